@@ -25,7 +25,8 @@ Explorer shape E4 (choice-point ownership of hidden nondeterminism) + E2 (cache 
      of names and kinds, not of arrival order or position); every permutation of the comment blocks
      displacing <= m; every assignment of the first <= 4 blocks to a.c/b.c with the files supplied in
      both orders.  Typedef-before-struct vs struct-before-typedef is one of the transpositions.
- P3  on the reference outputs: one global "comes before" relation on (parent kind, kind, name) must be
+ P3  on the reference outputs: with two include directories holding a same-named dependency GIR the
+     first directory given wins (both orders are inputs); one global "comes before" relation on (parent kind, kind, name) must be
      antisymmetric over all outputs; parameters, fields and enum members are in declaration order.
  P4  cache histories (E2): every history of <= L operations ending in a run, over
      {run, edit dep, five kinds of broken entry, drop entry, age entry, invalidate cache version}, on real files below
@@ -977,7 +978,7 @@ def run(ctx):
     refs = {n: audit[n]['xml'].encode('utf-8') for n in names}
     sizes = {n: [t[0] for t in audit[n]['trace']] for n in names}
     total_points = sum(len(v) for v in sizes.values())
-    if total_points < 30 or sum(1 for n in names if sizes[n]) < len(names) - 1:
+    if total_points < 30 or sum(1 for n in names if sizes[n]) < (2 * len(names)) // 3:
         raise HarnessBroken('vacuous: only %d choice points with >= 2 elements over %d inputs' % (total_points, len(names)))
     sites = sorted(set('%s@%d' % (t[1], t[2]) for n in names for t in audit[n]['trace']))
     if len(sites) < 6:
@@ -1061,6 +1062,14 @@ def run(ctx):
         root = sibling_relation(refs[inp['name']], rel, inp['name'])
         problems, checked = declared_order_problems(inp, root)
         ctx.add(traces_validated_against_impl=1, declared_order_lists_checked=checked)
+        text = refs[inp['name']].decode('utf-8')
+        for e in inp.get('expect', []):
+            ctx.nontrivial('precedence:%s:%s' % (inp['name'], e))
+            if e not in text or any(r in text for r in inp.get('reject', [])):
+                ctx.violation('include-precedence:%s' % inp['name'],
+                              'with include paths %r the dependency found in the FIRST directory must be used: expected %s in '
+                              'the GIR' % (inp['opts'].get('include_dirs'), e),
+                              {'kind': 'include-precedence', 'input': inp['name']})
         for pr in problems:
             ctx.violation('declared-order:%s:%s' % (inp['name'], pr.split(':')[0]),
                           'parameters/fields/members are not in declaration order: ' + pr,
@@ -1152,6 +1161,13 @@ def replay(ctx, case):
         print('edits within the same whole second as the entry they invalidate:', same)
         print('result:', problem[0] if problem else 'every run equals the cache-disabled GIR')
         return problem is None
+    if kind == 'include-precedence':
+        inp = I.by_name(case['input'])
+        text = observe(I.execute(inp)).decode('utf-8')
+        print('include paths:', inp['opts'].get('include_dirs'), {d: I.INCDIRS[d] for d in inp['opts'].get('include_dirs')})
+        print('expected', inp['expect'], [e in text for e in inp['expect']], 'rejected', inp['reject'],
+              [e in text for e in inp['reject']])
+        return all(e in text for e in inp['expect']) and not any(e in text for e in inp['reject'])
     if kind in ('sibling-order', 'declared-order'):
         rel = {}
         ok = True
